@@ -96,6 +96,8 @@ Proof.
     all: try (destruct (i_present0 Ep) as [Hh Hc]).
     all: try (intros w' Hd; apply Hdel in Hd; [by apply i_deleted0|done]).
     all: try (intros H1 H2; eapply Hpend; eauto; done).
+    all: try (by rewrite Ep).
+    all: try (intros _; split; [done|lia]).
     + (* DOk: w becomes the holder *)
       intros w'. wcase w' w.
       * intros _. split; [done|]. split; [|lia]. destruct (enq s); [done|]. simpl in *. lia.
@@ -145,8 +147,11 @@ Theorem error_never_executes c s w o :
   (wget s w = WGot -> wget (cstep c s (CDelete w o)) w = WIdle /\
                       retries (cstep c s (CDelete w o)) = S (retries s)).
 Proof.
-  intros [-> | ->]; simpl; destruct (wget s w) eqn:E; simpl; (split; [done|]); try done;
-  intros _; (split; [rewrite wget_wset; by destruct (decide (w = w))|done]).
+  intros Ho. simpl. destruct (wget s w) eqn:E.
+  - split; [done|]. intros; congruence.
+  - destruct Ho as [-> | ->]; simpl; (split; [done|]); intros _;
+    (split; [rewrite wget_wset; destruct (decide (w = w)); done|done]).
+  - split; [done|]. intros; congruence.
 Qed.
 
 (* the executable law accepts every reachable state of the model *)
@@ -162,7 +167,7 @@ Proof.
   rewrite (bool_decide_true (retries s = _)) by done. rewrite !andb_true_r.
   apply andb_true_iff. split; [apply andb_true_iff; split|].
   - apply forallb_forall. intros r Hr. rewrite Forall_forall in A3. apply bool_decide_eq_true.
-    apply A3. by apply elem_of_list_In.
+    apply A3. first [exact Hr | apply (proj2 (elem_of_list_In _ _)); exact Hr].
   - destruct (enq s) eqn:E; [done|]. rewrite A4 by done. by rewrite orb_true_r.
   - destruct b; [done|]. rewrite A5 by done. done.
 Qed.
